@@ -84,3 +84,31 @@ Proof.
   split; [apply code_qabc_apply_is_model|apply code_qac_apply_is_model].
 Qed.
 Print Assumptions C05_code_is_model.
+
+(* "each point weighted by its distribution weights times |cos(dtheta)|": the weight of a mesh point under the
+   default (equirectangular) projection, READ from the APPLY_PROJECTION() macro of the current kernel_iq.c
+   (Gen/C05_code.v; generate.PROJECTION = 1 is checked by the translator): the absolute value of the cosine of the
+   jitter latitude times the product of the distribution weights - for every latitude, beyond +-90 degrees too, where
+   the cosine itself is negative *)
+Theorem C05_code_projection_weight : forall (T : Type) (O : Ops T) (dtheta : cs (T:=T)) w0,
+  code_projection_weight O dtheta w0 = mul O (absv O (c_ dtheta)) w0.
+Proof. reflexivity. Qed.
+Print Assumptions C05_code_projection_weight.
+Theorem C05_code_projection_abs_cos : forall t w0,
+  code_projection_weight ROps (CS (cos t) (sin t)) w0 = Rabs (cos t) * w0.
+Proof. intros. rewrite C05_code_projection_weight. reflexivity. Qed.
+Print Assumptions C05_code_projection_abs_cos.
+Theorem C05_code_projection_nonneg : forall (dtheta : cs (T:=R)) w0, 0 <= w0 -> 0 <= code_projection_weight ROps dtheta w0.
+Proof.
+  intros dtheta w0 H. rewrite C05_code_projection_weight. cbn [mul absv ROps].
+  apply Rmult_le_pos; [apply Rabs_pos | exact H].
+Qed.
+Print Assumptions C05_code_projection_nonneg.
+(* a latitude and its mirror image beyond the pole (t and pi - t) carry the same weight *)
+Theorem C05_code_projection_mirror : forall t w0,
+  code_projection_weight ROps (CS (cos (PI - t)) (sin (PI - t))) w0 = code_projection_weight ROps (CS (cos t) (sin t)) w0.
+Proof.
+  intros. rewrite !C05_code_projection_abs_cos. replace (PI - t) with (- t + PI) by ring.
+  rewrite neg_cos, cos_neg, Rabs_Ropp. reflexivity.
+Qed.
+Print Assumptions C05_code_projection_mirror.
